@@ -55,6 +55,9 @@ func c08R1(p *core.Program, r *core.Report, pl *pipeline) {
 			}
 		}
 	}
+	if pred != nil {
+		pred = flatten(p, pred)
+	}
 	if pred == nil {
 		r.Anchor(rule, "boolean skip predicate tested at the start of the per-package function")
 		return
@@ -196,6 +199,7 @@ func c08R1(p *core.Program, r *core.Report, pl *pipeline) {
 	// Sum: missing data/entry yields the empty string (never equal to a real hash)
 	sf := p.FuncByName("pkg/sumfile", "(*File).Sum")
 	if sf != nil {
+		sf = flatten(p, sf)
 		ok := true
 		ast.Inspect(sf.Body, func(n ast.Node) bool {
 			if ret, isRet := n.(*ast.ReturnStmt); isRet && len(ret.Results) == 1 {
@@ -263,7 +267,7 @@ func c08R2(p *core.Program, r *core.Report) {
 				if fld == nil || fld.Name() != "Data" || !strings.HasSuffix(core.NamedTypeName(finfo.TypeOf(ix.X.(*ast.SelectorExpr).X)), "sumfile.File") {
 					continue
 				}
-				if core.RelPkg(ff.Pkg.PkgPath) == "pkg/sumfile" && ff.Name == "Load" {
+				if core.RelPkg(ff.Pkg.PkgPath) == "pkg/sumfile" && ff.Root().Name == "Load" { // also inside a callback of Load
 					continue // the reader fills its own fresh file
 				}
 				nstores++
@@ -532,6 +536,7 @@ func c08R5(p *core.Program, r *core.Report) {
 		r.Anchor(rule, "pkg/sumfile.(*File).Bytes / Load")
 		return
 	}
+	bf = flatten(p, bf) // loops in range form
 	info := bf.Info()
 	// writer: sequence of writes inside the loop over sorted keys
 	var loop *ast.RangeStmt
@@ -544,7 +549,8 @@ func c08R5(p *core.Program, r *core.Report) {
 	why := "no loop over the sorted keys"
 	if loop != nil {
 		sorted := false
-		if c := core.AsCall(info, loop.X, "slices.Sorted"); c != nil {
+		seqX, _ := core.Resolve(info, bf.Body, loop.X) // the sorted keys, possibly read into a local first
+		if c := core.AsCall(info, seqX, "slices.Sorted"); c != nil {
 			if kc := core.AsCall(info, c.Args[0], "maps.Keys"); kc != nil {
 				if fld := core.FieldOf(info, kc.Args[0]); fld != nil && fld.Name() == "Data" {
 					sorted = true
